@@ -37,11 +37,14 @@ def re_match_with_span(attr, value):
     if attr.pattern is None:
         return True
 
+    # the pattern facet constrains the whole string. match() returns the first
+    # alternative that matches a prefix ('a|ab' on 'ab' gives 'a'), so ask the
+    # regex engine for a whole-string match where it can do that.
+    fullmatch = getattr(attr._pattern_re, 'fullmatch', None)
+    if fullmatch is not None:
+        return fullmatch(value) is not None
+
     m = attr._pattern_re.match(value)
-    # if m:
-    #     print(m, m.span(), len(value))
-    # else:
-    #     print(m)
     return (m is not None) and (m.span() == (0, len(value)))
 
 
